@@ -177,7 +177,32 @@ def f_rename_slides(pkg, rng):
     return "rename-slides:" + ",".join(str(k) for k in nums)
 
 
-FAULTS = [f_dangle, f_drop_rels, f_no_core, f_case, f_unknown_ct, f_extra, f_rename_slides]
+def f_upper_ext(pkg, rng):
+    """a part NAME with an upper-/mixed-case extension against a lower-case Default declaration"""
+    defaults = {e.lower() for e, _ in pkg["defaults"]}
+    cands = [n for n in pkg["members"] if "." in n.rsplit("/", 1)[1] and n.rsplit(".", 1)[1].lower() in defaults
+             and n.rsplit(".", 1)[1].lower() not in ("xml", "rels") and not any(o[0].lower() == n.lower() for o in pkg["overrides"])]
+    if not cands:
+        return None
+    old = rng.choice(cands)
+    stem, ext = old.rsplit(".", 1)
+    new = stem + "." + rng.choice([ext.upper(), ext.capitalize()])
+    if new == old:
+        return None
+    pkg["members"] = {(new if n == old else n): b for n, b in pkg["members"].items()}
+    new_rels = {}
+    for src, lst in pkg["rels"].items():
+        out = []
+        for rid, ty, tgt, ext_ in lst:
+            if not ext_ and c01.resolve(src, tgt) == old:
+                tgt = new
+            out.append((rid, ty, tgt, ext_))
+        new_rels[new if src == old else src] = out
+    pkg["rels"] = new_rels
+    return f"upper-ext:{old}"
+
+
+FAULTS = [f_dangle, f_drop_rels, f_no_core, f_case, f_unknown_ct, f_extra, f_rename_slides, f_upper_ext]
 
 
 def model_line_for(pkg):
@@ -256,6 +281,21 @@ def correspond(ctx):
             faulted = parse_zip(data)
             faulted["types"] = {n: t for n, t in faulted["types"].items()}
             check_saved(ctx, faulted, saved, case)
+            if any(a == "no-core" for a in applied):
+                # "a package without core properties gains a default part on first access" - and loses nothing else
+                try:
+                    from pptx import Presentation
+                    prs = Presentation(io.BytesIO(data))
+                    _ = prs.core_properties.title
+                    b2 = io.BytesIO(); prs.save(b2)
+                    names2 = set(zipfile.ZipFile(io.BytesIO(b2.getvalue())).namelist())
+                    names1 = set(zipfile.ZipFile(io.BytesIO(saved)).namelist())
+                    lost = sorted(n for n in names1 - names2 if "core" not in n)
+                    ctx.count("no-core-then-access")
+                    if lost or not any(n.endswith("core.xml") for n in names2):
+                        ctx.fail("core-properties-access-loses-parts", f"{deck.name} with {applied}: after reading core_properties the saved package lost {lost} / core part present: {any(n.endswith('core.xml') for n in names2)}", case)
+                except Exception as e:  # noqa
+                    ctx.fail("core-properties-access-raises", f"{deck.name} with {applied}: {type(e).__name__}: {str(e)[:100]}", case)
             l1, _ = c01.listing_of_zip(saved)
             # payload identity column is not compared for decks (XML parts are re-serialised)
             lines.append(model_line_for(faulted))
